@@ -10,11 +10,14 @@ import (
 	"testing"
 
 	"github.com/markkurossi/mpc/circuit"
+	"github.com/markkurossi/mpc/env"
 	"github.com/markkurossi/mpc/ot"
+	"github.com/markkurossi/mpc/p2p"
 
 	"verif/bitsim"
 	"verif/circgen"
 	"verif/drbg"
+	"verif/idealot"
 )
 
 type failingReader struct {
@@ -169,6 +172,53 @@ func TestConcurrentCompute(t *testing.T) {
 				for i := range want {
 					if got[i].Cmp(want[i]) != 0 {
 						t.Errorf("goroutine %d: Compute(%d) output %d = %v, want %v", tid, x, i, got[i], want[i])
+						return
+					}
+				}
+			}
+		}(tid)
+	}
+	wg.Wait()
+}
+
+// TestConcurrentSessions runs whole Garbler/Evaluator sessions on ONE circuit value at once (program S of the
+// driver, free-running): per-session state that lives on the circuit or in a package variable is a race here.
+func TestConcurrentSessions(t *testing.T) {
+	d := circgen.Desc{In: []int{3, 3}, Out: []int{2, 2}, Gates: []circgen.G{{2, 0, 3}, {3, 1, 4}, {0, 6, 7}, {4, 8, 0}, {2, 2, 5}, {1, 9, 10}, {3, 11, 6}}}
+	c := d.Build()
+	var wg sync.WaitGroup
+	for tid := 0; tid < 4; tid++ {
+		wg.Add(1)
+		go func(tid int) {
+			defer wg.Done()
+			for it := 0; it < 25; it++ {
+				x := (it*11 + tid*17) % 64
+				in := make([]bool, 6)
+				for i := range in {
+					in[i] = x>>i&1 == 1
+				}
+				ref, _ := bitsim.Eval(c, in)
+				want := bitsim.Outputs(c, ref)
+				a, b := p2p.Pipe()
+				var eout []*big.Int
+				var eerr error
+				done := make(chan struct{})
+				go func() {
+					defer close(done)
+					eout, eerr = circuit.Evaluator(b, idealot.New(), c, big.NewInt(int64(x>>3)), false)
+					b.Close()
+				}()
+				cfg := &env.Config{Rand: drbg.New(uint64(9000 + 100*tid + it))}
+				gout, gerr := circuit.Garbler(cfg, a, idealot.New(), c, big.NewInt(int64(x&7)), false)
+				a.Close()
+				<-done
+				if gerr != nil || eerr != nil {
+					t.Errorf("goroutine %d: session(%d): garbler %v evaluator %v", tid, x, gerr, eerr)
+					return
+				}
+				for i := range want {
+					if i >= len(gout) || i >= len(eout) || gout[i].Cmp(want[i]) != 0 || eout[i].Cmp(want[i]) != 0 {
+						t.Errorf("goroutine %d: session(%d): garbler %v evaluator %v want %v", tid, x, gout, eout, want)
 						return
 					}
 				}
